@@ -102,6 +102,8 @@ type Config struct {
 	// Expand rewrites a condition before it is split into atoms (boolean helper predicates replaced
 	// by their defining expression); nil = identity.
 	Expand func(cond ast.Expr) ast.Expr
+	// Unroll returns the elements of a range statement over a fixed list of expressions (nil: a loop).
+	Unroll func(rs *ast.RangeStmt) []ast.Expr
 	MaxPaths  int
 	MaxInline int
 }
@@ -401,6 +403,39 @@ func (e *enumerator) stmt(s ast.Stmt, p Path, depth int, k kont) {
 			run(p)
 		}
 	case *ast.RangeStmt:
+		// a loop over a fixed list of expressions (Config.Unroll) runs its body once per element, in
+		// order, with the value variable replaced by the element
+		if e.c.Unroll != nil && v.Value != nil {
+			if vid, ok := v.Value.(*ast.Ident); ok && vid.Name != "_" {
+				if elems := e.c.Unroll(v); len(elems) > 0 && len(elems) <= 8 {
+					if vobj := e.c.Info.ObjectOf(vid); vobj != nil {
+						var iter func(i int, p Path)
+						iter = func(i int, p Path) {
+							if i == len(elems) {
+								k(p, "")
+								return
+							}
+							body, _ := Subst(e.c.Info, v.Body, map[types.Object]ast.Expr{vobj: elems[i]}).(*ast.BlockStmt)
+							if body == nil {
+								body = v.Body
+							}
+							e.block(body.List, p, depth, func(p2 Path, ctl string) {
+								switch ctl {
+								case "ret", "panic":
+									k(p2, ctl)
+								case "break":
+									k(p2, "")
+								default:
+									iter(i+1, p2)
+								}
+							})
+						}
+						iter(0, p)
+						return
+					}
+				}
+			}
+		}
 		p = append(p, Event{Kind: "LOOP", Pos: v.Pos(), Node: v})
 		// zero iterations
 		k(append(append(Path{}, p...), Event{Kind: "ENDLOOP"}), "")
